@@ -473,6 +473,9 @@ class GraphEdges(BoundedCheck):
         yield {'script': 'Y = C + G + 0.25 * Y', 'seed': 1}
         yield {'script': 'C = {a}[-1] + <e>[1]', 'seed': 2}
         yield {'script': "Y = X + V['2005'] + W[`2001`]", 'seed': 3, 'named': True}
+        # an offset on the left-hand side: the node is the left-hand-side term as written
+        yield {'script': 'H[1] = H + YD - C[-1]', 'seed': 6, 'lhs': 'H[t+1]', 'fragments': ['H[t]', 'YD[t]', 'C[t-1]']}
+        yield {'script': 'K[-1] = K[-2] * {d}[1]', 'seed': 7, 'lhs': 'K[t-1]', 'fragments': ['K[t-2]', 'd[t+1]']}
         # several verbatim fragments in one equation: the terms between, before and after them are terms of the equation
         yield {'script': 'Y = `1.5 *` X + C[-1] `- 0.5` + G', 'seed': 4, 'fragments': ['X[t]', 'C[t-1]', 'G[t]']}
         yield {'script': 'Y = A `+ 2.0 *` B[1] `+ 3.0 *` {c} `+` <e>[-2]', 'seed': 5, 'fragments': ['A[t]', 'B[t+1]', 'c[t]', 'e[t-2]']}
@@ -499,10 +502,13 @@ class GraphEdges(BoundedCheck):
                                          'c20.edges:named-period', jcase, want, sorted(preds), 'edges'))
             return out
         if case.get('fragments'):
-            preds = set(g.predecessors('Y[t]')) if 'Y[t]' in g.nodes else set()
+            lhs = case.get('lhs', 'Y[t]')
+            preds = set(g.predecessors(lhs)) if lhs in g.nodes else set()
+            if lhs not in g.nodes or g.nodes[lhs].get('equation') != symbols[0].equation:
+                out.append(Violation('one node per left-hand-side term, as written, carrying the normalised equation', 'c20.node:lhs-offset', jcase, lhs, sorted(g.nodes)[:6], 'nodes'))
             if {x for x in preds if re.fullmatch(r'[_A-Za-z]\w*\[t(?:[+-]\d+)?\]', x)} != set(case['fragments']):
                 out.append(Violation('edge x -> y for exactly the variable, parameter and error terms on the right-hand side of y (verbatim fragments are no terms, what stands between them is)',
-                                     'c20.edges:fragments', jcase, sorted(case['fragments']), sorted(preds), 'edges'))
+                                     'c20.edges:fragments' if 'lhs' not in case else 'c20.edges:lhs-offset', jcase, sorted(case['fragments']), sorted(preds), 'edges'))
             return out
         p = G.parse_script(script)
         by_name = {}
